@@ -401,6 +401,11 @@ fn guarded_merge(dst: &Database, src: &Database, it: &mut Intern) -> (J, Option<
 }
 
 fn run_pair(ctx: &mut Ctx, ea: &[Edit], eb: &[Edit], tags: Vec<String>) -> bool {
+    run_pair_t(ctx, ea, eb, tags, false)
+}
+
+/// `tie`: the two replicas use the same clock readings (the i-th edit of either side happens in the same second)
+fn run_pair_t(ctx: &mut Ctx, ea: &[Edit], eb: &[Edit], tags: Vec<String>, tie: bool) -> bool {
     let mut a = ancestor();
     let mut b = ancestor();
     let (mut fa, mut fb) = (1000u64, 2000u64);
@@ -409,7 +414,7 @@ fn run_pair(ctx: &mut Ctx, ea: &[Edit], eb: &[Edit], tags: Vec<String>) -> bool 
         ok &= apply(&mut a, e, 101 + 2 * i as i64, &mut fa);
     }
     for (i, e) in eb.iter().enumerate() {
-        ok &= apply(&mut b, e, 102 + 2 * i as i64, &mut fb);
+        ok &= apply(&mut b, e, if tie { 101 } else { 102 } + 2 * i as i64, &mut fb);
     }
     if !ok {
         return true;
@@ -453,6 +458,41 @@ pub fn run(ctx: &mut Ctx) {
             if !run_pair(ctx, ea, eb, vec!["pairs-1x1".into()]) {
                 ctx.out_flush_and_exit();
             }
+        }
+    }
+    // a deletion on the source side in the very second of a change of the same node on the destination side
+    for ea in &singles {
+        for eb in &singles {
+            let same_node = match (ea.first(), eb.first()) {
+                (Some(Edit::EditEntry(x)), Some(Edit::DeleteEntry(y))) | (Some(Edit::SetEntry(x, _)), Some(Edit::DeleteEntry(y)))
+                | (Some(Edit::EditEntryUncommitted(x)), Some(Edit::DeleteEntry(y))) | (Some(Edit::RenameGroup(x)), Some(Edit::DeleteGroup(y, _)))
+                | (Some(Edit::TouchGroup(x)), Some(Edit::DeleteGroup(y, _))) => x == y,
+                _ => false,
+            };
+            if same_node && !run_pair_t(ctx, ea, eb, vec!["pairs-1x1-same-second".into()], true) {
+                ctx.out_flush_and_exit();
+            }
+        }
+    }
+    // deletion-heavy histories on the source side (nested groups emptied and deleted, parent-first and child-first)
+    for _ in 0..ctx.count(1500, 10000) {
+        let lb = rng.range(3, 5) as usize;
+        let mut db = ancestor();
+        let mut fresh = 2000u64;
+        let mut eb = Vec::new();
+        for i in 0..lb {
+            let al: Vec<Edit> = alphabet(&db).into_iter().filter(|e| matches!(e, Edit::AddGroup(_) | Edit::DeleteGroup(..) | Edit::DeleteEntry(_) | Edit::MoveEntry(..) | Edit::MoveGroup(..))).collect();
+            if al.is_empty() {
+                break;
+            }
+            let e = rng.pick(&al).clone();
+            if apply(&mut db, &e, 1000 + i as i64, &mut fresh) {
+                eb.push(e);
+            }
+        }
+        let ea: Vec<Edit> = if rng.chance(1, 2) { vec![] } else { vec![rng.pick(&alpha).clone()] };
+        if !run_pair(ctx, &ea, &eb, vec!["deletion-heavy".into()]) {
+            ctx.out_flush_and_exit();
         }
     }
     // longer histories
